@@ -35,6 +35,33 @@ func init() {
 		desync.NewProtocolServer(os.Stdin, os.Stdout, &c03ForeignStore{dir: os.Args[6]}).Serve(context.Background())
 		os.Exit(0)
 	}
+	// sub-mode: `<vh> C03PEER pull - - - <dir>`: a scripted casync peer on stdin/stdout.  It answers
+	// a request for <id> with the CHUNK message whose body is the file <dir>/<id>.ans (flags |
+	// chunk id | data, whatever the script says), and with MISSING when there is no such file.
+	if len(os.Args) > 6 && os.Args[1] == "C03PEER" {
+		p := desync.NewProtocol(os.Stdin, os.Stdout)
+		if _, err := p.Initialize(desync.CaProtocolReadableStore); err != nil {
+			os.Exit(1)
+		}
+		for {
+			m, err := p.ReadMessage()
+			if err != nil || m.Type != desync.CaProtocolRequest || len(m.Body) < 40 {
+				os.Exit(0)
+			}
+			var id desync.ChunkID
+			copy(id[:], m.Body[8:40])
+			body, err := os.ReadFile(filepath.Join(os.Args[6], id.String()+".ans"))
+			if err != nil {
+				if p.SendMissing(id) != nil {
+					os.Exit(0)
+				}
+				continue
+			}
+			if p.WriteMessage(desync.Message{Type: desync.CaProtocolChunk, Body: body}) != nil {
+				os.Exit(0)
+			}
+		}
+	}
 	// sub-mode: SFTP server over stdio (started through the fake ssh)
 	if len(os.Args) > 1 && os.Args[1] == "C03SFTP" {
 		srv, err := sftp.NewServer(struct {
